@@ -1332,12 +1332,18 @@ pub fn read_memory_by_pid(pid: Pid, addr: usize, read_n: usize) -> Result<Vec<u8
 
     let single_read_size = mem::size_of::<c_long>();
 
-    let mut addr = addr as *mut c_long;
+    // read aligned words: an aligned word never crosses a page boundary, so the bytes around
+    // the requested range that come along are mapped whenever the range itself is
+    let mut skip = addr % single_read_size;
+    let mut addr = (addr - skip) as *mut c_long;
     while read_reminder > 0 {
         let value = sys::ptrace::read(pid, addr as *mut c_void)?;
-        result.extend(value.to_ne_bytes().into_iter().take(read_reminder as usize));
+        let bytes = value.to_ne_bytes();
+        let chunk = &bytes[skip..];
+        result.extend(chunk.iter().take(read_reminder as usize));
 
-        read_reminder -= single_read_size as isize;
+        read_reminder -= chunk.len() as isize;
+        skip = 0;
         addr = unsafe { addr.offset(1) };
     }
 
